@@ -470,15 +470,17 @@ def oracle(case, obs):
         a, b = o[1], o[2]
         # classification of the operation, from the state before it
         pa, pb = prev
-        if op[0] in (APP, INS, SETI) and op[-1] in pa[op[1] - 1]:
+        # "dup": the USER puts a member into a collection that already holds it (or the collection
+        # already held a duplicate put there by the user) - exactly the complement of the proved guard
+        if op[0] in (APP, INS) and op[-1] in pa[op[1] - 1]:
+            dup = True
+        if op[0] == SETI and op[3] in pa[op[1] - 1] and not (op[2] < len(pa[op[1] - 1]) and pa[op[1] - 1][op[2]] == op[3]):
             dup = True
         if op[0] == BAPP and op[2] in pb[op[1] - 1]:
             dup = True
         if op[0] == SLICE and (set(op[4]) & set(pa[op[1] - 1]) or len(set(op[4])) != len(op[4])):
             dup = True
         if op[0] in (REPL, BREPL) and len(set(op[2])) != len(op[2]):
-            dup = True
-        if _has_dup(kind, a, b):
             dup = True
         if kind == 1 and op[0] in (ASET, BSET) and op[2] != 0:
             # the assigned object was already referenced from (or referring to) another object
